@@ -13,11 +13,27 @@ sends carry pairwise distinct identities (the identity is the only thing that li
 * `C01_in_flight_attempted` — an entry held by a task suspended in `drain()` (`drainAwait w e r`) has a write attempt
   in the trace.
 * `C01_accounted_strong` — every accepted message is still in the queue, or the trace has a write attempt
-  (`wire` / `deadWrite` / `writeFault`) or a `qdrop` for it.  `C01_accounted` is the weaker four-way form with the
-  in-flight alternative.
+  (`wire` / `deadWrite` / `writeFault`) or a `qdrop` for it, **or the socket was closed and opened again after its
+  acceptance** (`reopenedSince`, defined in `Lemmas/SockLoss.lean`: the trace reads `… accept sid … apiClose … apiOpen …`).
+  `C01_accounted` is the weaker form with the in-flight alternative.
+* `C01_accounted_current_session`, `C01_accounted_no_close` — the three-way statement as it was before /repo 3897b77, for
+  messages of the session that is running (`reopenedSince … = false`), in particular for histories without `close()`.
+* `C01_reopen_discards_silently` — the witness: accept while the link is down; `close()`; `open_socket()`; the entry is
+  gone and nothing in the trace says so.
 * `C01_no_silent_loss_quiescent` — in every reachable state with an empty queue (tasks may be anywhere; in particular
   in every `Healed` state: `C01_no_silent_loss_healed`) every accepted message has a write attempt or a drop in
-  the trace, and all drops are justified.
+  the trace or was accepted before a close / re-open, and all drops are justified; `C01_no_silent_loss_quiescent_no_close`
+  is the old two-way form for histories without `close()`.
+
+**What changed with /repo 3897b77 and why.**  `open_socket()` on a socket that is not open now clears the send queue
+(`self._message_queue.clear()`), so that messages of an earlier session are not transmitted ahead of the next session's
+handshake.  The code logs nothing there.  A message accepted in the earlier session and still queued - it was waiting for a
+connection when `close()` ran (`close()` leaves the queue alone), or a sender suspended in `drain()` put it back through the
+retry path after `close()` had returned - therefore disappears without a write attempt and without a `qdrop`.  The old
+statements `C01_accounted_strong`, `C01_accounted`, `C01_no_silent_loss_quiescent`, `C01_no_silent_loss_healed` became false
+(`C01_reopen_discards_silently`); they now carry the extra alternative `reopenedSince`, which is exact (a redundant
+`open_socket()` on an open socket clears nothing and does not count).  The Spec monitor `noSilentLoss` does not judge
+histories in which the client was closed (`hasClose`), so `C01_no_silent_loss_marked` / `_unmarked` are unchanged.
 * `C01_no_silent_loss_marked` — the monitor `noSilentLoss` itself accepts the trace of every reachable state with an
   empty queue after the harness marker `heal th` has been inserted at an arbitrary position, for every `th`.
   The model never emits `heal`; on its own trace the monitor reduces to `dropsJustified`
@@ -25,6 +41,7 @@ sends carry pairwise distinct identities (the identity is the only thing that li
 -/
 namespace PyAirtouch.Props.C01
 open PyAirtouch.Model.Sock PyAirtouch.Spec.Trace PyAirtouch.Lemmas.Sock PyAirtouch.Lemmas.SockHeal
+open PyAirtouch.Lemmas.SockLoss (reopenedSince)
 
 /-- every drop states a true reason -/
 theorem C01_drops_justified {s : Sys} (h : ReachableWF s) : dropsJustified s.core.trace = true :=
@@ -35,31 +52,69 @@ theorem C01_in_flight_attempted {s : Sys} (h : ReachableWF s) {k : Task} (hk : k
     {r : Ret} (hpc : k.pc = .drainAwait w x r) : 1 ≤ writeAttempts s.core.trace x.sid :=
   Lemmas.SockLoss.C01_in_flight_attempted h hk hpc
 
-/-- accounting, strong form: still queued, or a write attempt, or a drop -/
+/-- accounting, strong form: still queued, or a write attempt, or a drop, or accepted before the socket was closed and
+    opened again.  (The last alternative is new with /repo 3897b77: `open_socket()` on a closed socket discards the queue
+    without a log record; without it the statement is false, see `C01_reopen_discards_silently`.) -/
 theorem C01_accounted_strong {s : Sys} (h : ReachableWF s) {sid t e r : Nat} {ok : Bool}
     (hmem : Ev.accept sid t e r ok ∈ s.core.trace) :
-    (∃ x ∈ s.core.queue, x.sid = sid) ∨ 1 ≤ writeAttempts s.core.trace sid ∨ dropped s.core.trace sid = true :=
+    (∃ x ∈ s.core.queue, x.sid = sid) ∨ 1 ≤ writeAttempts s.core.trace sid ∨ dropped s.core.trace sid = true ∨
+      reopenedSince s.core.trace sid = true :=
   Lemmas.SockLoss.C01_accounted_strong h hmem
 
-/-- accounting: still queued, or in flight in some task, or a write attempt, or a drop -/
+/-- the statement as it was before /repo 3897b77, for messages accepted in the session that is running (or in the last
+    one, if the socket has not been opened again) -/
+theorem C01_accounted_current_session {s : Sys} (h : ReachableWF s) {sid t e r : Nat} {ok : Bool}
+    (hmem : Ev.accept sid t e r ok ∈ s.core.trace) (hcur : reopenedSince s.core.trace sid = false) :
+    (∃ x ∈ s.core.queue, x.sid = sid) ∨ 1 ≤ writeAttempts s.core.trace sid ∨ dropped s.core.trace sid = true :=
+  Lemmas.SockLoss.C01_accounted_current_session h hmem hcur
+
+/-- … in particular in every history without `close()` -/
+theorem C01_accounted_no_close {s : Sys} (h : ReachableWF s) {sid t e r : Nat} {ok : Bool}
+    (hmem : Ev.accept sid t e r ok ∈ s.core.trace) (hnc : hasClose s.core.trace = false) :
+    (∃ x ∈ s.core.queue, x.sid = sid) ∨ 1 ≤ writeAttempts s.core.trace sid ∨ dropped s.core.trace sid = true :=
+  Lemmas.SockLoss.C01_accounted_no_close h hmem hnc
+
+/-- **the history in which the unrestricted three-way statement fails**: `open_socket()`; `send(1)` accepted while the link
+    is down; a complete `close()` (the entry stays queued); `open_socket()`: the queue is empty, no write attempt, no drop,
+    no task holds the message, and the trace after the `accept` is `apiClose, notify false, apiCloseDone, apiOpen` -/
+theorem C01_reopen_discards_silently : ∃ s, ReachableWF s ∧ Ev.accept 1 0 240 2 true ∈ s.core.trace ∧
+    s.core.queue = [] ∧ writeAttempts s.core.trace 1 = 0 ∧ dropped s.core.trace 1 = false ∧
+    (∀ k ∈ s.tasks, k.pc = .finished ∨ k.pc = .connStart) ∧
+    s.core.trace = [.apiOpen 0, .accept 1 0 240 2 true, .apiClose 0, .notify false 0, .apiCloseDone 0, .apiOpen 0] ∧
+    reopenedSince s.core.trace 1 = true ∧
+    ¬ ((∃ x ∈ s.core.queue, x.sid = 1) ∨ 1 ≤ writeAttempts s.core.trace 1 ∨ dropped s.core.trace 1 = true) :=
+  Lemmas.SockLoss.reopen_discards_silently
+
+/-- accounting: still queued, or in flight in some task, or a write attempt, or a drop, or accepted before the socket was
+    closed and opened again (new with /repo 3897b77) -/
 theorem C01_accounted {s : Sys} (h : ReachableWF s) {sid t e r : Nat} {ok : Bool}
     (hmem : Ev.accept sid t e r ok ∈ s.core.trace) :
     (∃ x ∈ s.core.queue, x.sid = sid) ∨
     (∃ k ∈ s.tasks, ∃ w x r', k.pc = .drainAwait w x r' ∧ x.sid = sid) ∨
-    1 ≤ writeAttempts s.core.trace sid ∨ dropped s.core.trace sid = true :=
+    1 ≤ writeAttempts s.core.trace sid ∨ dropped s.core.trace sid = true ∨ reopenedSince s.core.trace sid = true :=
   Lemmas.SockLoss.C01_accounted h hmem
 
-/-- with an empty queue every accepted message has a write attempt or a drop, and every drop is justified -/
+/-- with an empty queue every accepted message has a write attempt or a drop or was accepted before the socket was closed
+    and opened again (new with /repo 3897b77: the re-open is one of the ways the queue becomes empty), and every drop is
+    justified -/
 theorem C01_no_silent_loss_quiescent {s : Sys} (h : ReachableWF s) (hq : s.core.queue = []) :
     dropsJustified s.core.trace = true ∧
     ∀ sid t e r ok, Ev.accept sid t e r ok ∈ s.core.trace →
-      1 ≤ writeAttempts s.core.trace sid ∨ dropped s.core.trace sid = true :=
+      1 ≤ writeAttempts s.core.trace sid ∨ dropped s.core.trace sid = true ∨ reopenedSince s.core.trace sid = true :=
   Lemmas.SockLoss.C01_no_silent_loss_quiescent h hq
+
+/-- the statement as it was before /repo 3897b77, for histories without `close()` -/
+theorem C01_no_silent_loss_quiescent_no_close {s : Sys} (h : ReachableWF s) (hq : s.core.queue = [])
+    (hnc : hasClose s.core.trace = false) :
+    dropsJustified s.core.trace = true ∧
+    ∀ sid t e r ok, Ev.accept sid t e r ok ∈ s.core.trace →
+      1 ≤ writeAttempts s.core.trace sid ∨ dropped s.core.trace sid = true :=
+  Lemmas.SockLoss.C01_no_silent_loss_quiescent_no_close h hq hnc
 
 theorem C01_no_silent_loss_healed {s : Sys} (h : ReachableWF s) (hh : Healed s) :
     dropsJustified s.core.trace = true ∧
     ∀ sid t e r ok, Ev.accept sid t e r ok ∈ s.core.trace →
-      1 ≤ writeAttempts s.core.trace sid ∨ dropped s.core.trace sid = true :=
+      1 ≤ writeAttempts s.core.trace sid ∨ dropped s.core.trace sid = true ∨ reopenedSince s.core.trace sid = true :=
   Lemmas.SockLoss.C01_no_silent_loss_healed h hh
 
 /-- the monitor accepts the trace of a state with an empty queue, with the marker `heal th` inserted anywhere -/
